@@ -74,6 +74,7 @@ from halmos.contract import (
     OP_BLOCKHASH,
     OP_BYTE,
     OP_CALL,
+    OP_CALLCODE,
     OP_CALLDATACOPY,
     OP_CALLDATALOAD,
     OP_CALLDATASIZE,
@@ -2377,6 +2378,15 @@ class SEVM:
                 # TODO: revert if context is static
                 # NOTE: we cannot use `to_alias` here because it could be None
                 self.transfer_value(ex, pranked_caller, to, fund, condition)
+
+            elif op == OP_CALLCODE and not (fund.is_concrete and fund.value == 0):
+                # self-transfer: no balance update, but the balance must still cover the value
+                # (the insufficient case is handled by handle_insufficient_fund_case)
+                caller_balance = ex.balance_of(pranked_caller)
+                balance_cond = simplify(UGE(caller_balance, fund.as_z3()))
+                if is_false(balance_cond):
+                    raise InfeasiblePath("callcode: balance is not enough")
+                ex.path.append(balance_cond)
 
         def call_known(to: Address) -> None:
             # backup current state
